@@ -17,6 +17,7 @@ import (
 	atypes "github.com/ovrclk/akash/x/audit/types"
 	dtypes "github.com/ovrclk/akash/x/deployment/types"
 	mtypes "github.com/ovrclk/akash/x/market/types"
+	ptypes "github.com/ovrclk/akash/x/provider/types"
 )
 
 // ---- oracle (from the statement) ----
@@ -182,6 +183,11 @@ func scAttr() Scenario {
 		aCreateBid(bidRef{"T1", 1, 1, 1, "U1"}, 2, 5), // not a registered provider
 		aCreateBid(bidRef{"T1", 1, 1, 1, "T1"}, 2, 5), // the tenant itself
 		aCreateBid(bidRef{"T1", 1, 1, 2, "P1"}, 2, 5), // second order of the group
+		// the tenant, registered as a provider, bidding on its own order with its address spelled in upper case
+		aProvider("CreateProvider", "T1", ab, "aaa=1,bbb=1"),
+		aCreateBidRaw("CreateBid(T1,1,1,1,T1-UPPERCASE,price=2,dep=5)", bidRef{"T1", 1, 1, 1, "T1"}, func(c *Cast) string { return strings.ToUpper(c.S("T1")) }, coin(2), 5),
+		// a price in another denomination whose amount is within the maximum
+		aCreateBidRaw("CreateBid(T1,1,1,1,P1,price=2uatom,dep=5)", bidRef{"T1", 1, 1, 1, "P1"}, func(c *Cast) string { return c.S("P1") }, sdk.NewInt64Coin(denom2, 2), 5),
 		aGroup("CloseGroup", "T1", 1, 1),
 	)
 	sc.Alphabet = al
@@ -203,6 +209,37 @@ func scAttrLeased() Scenario {
 		aCreateBid(b1, 2, 5), aCreateBid(b2, 2, 5),
 		aBidOp("CreateLease", b1), aBidOp("CreateLease", b2),
 	}
+	return sc
+}
+
+// aProviderUpper registers / updates a provider whose owner address is spelled in upper-case bech32 (legal).
+func aProviderUpper(kind, p string, at types.Attributes, label string) Action {
+	a := aProvider(kind, p, at, label)
+	a.Name = fmt.Sprintf("%s(%s-UPPERCASE,%s)", kind, p, label)
+	inner := a.Msg
+	a.Msg = func(c *Cast) sdk.Msg {
+		switch m := inner(c).(type) {
+		case *ptypes.MsgCreateProvider:
+			m.Owner = strings.ToUpper(m.Owner)
+			return m
+		case *ptypes.MsgUpdateProvider:
+			m.Owner = strings.ToUpper(m.Owner)
+			return m
+		}
+		panic("aProviderUpper")
+	}
+	return a
+}
+
+// S-attr-upper: like S-attr-leased, but P1 registered itself with its address spelled in upper case.
+func scAttrUpper() Scenario {
+	sc := scAttrLeased()
+	sc.Name = "S-attr-upper"
+	ab := attrs("aaa", "1", "bbb", "1")
+	sc.Preamble[0] = aProviderUpper("CreateProvider", "P1", ab, "aaa=1,bbb=1")
+	sc.Alphabet = append(sc.Alphabet,
+		aProviderUpper("UpdateProvider", "P1", attrs("aaa", "1"), "aaa=1"),
+		aProviderUpper("UpdateProvider", "P1", nil, "none"))
 	return sc
 }
 
@@ -241,10 +278,22 @@ func (chkC08) CheckTrans(t *TransCtx) (out []Viol) {
 			why = append(why, "order-not-open")
 		}
 		prov, registered := t.Pre.Providers[msg.Provider]
+		if perr0, pa0 := error(nil), sdk.AccAddress(nil); !registered {
+			// the provider store is keyed by address; the message may spell the address differently (upper-case bech32)
+			if pa0, perr0 = sdk.AccAddressFromBech32(msg.Provider); perr0 == nil {
+				for _, pr := range t.Pre.Providers {
+					if o, e := sdk.AccAddressFromBech32(pr.Owner); e == nil && o.Equals(pa0) {
+						prov, registered = pr, true
+					}
+				}
+			}
+		}
 		if !registered {
 			why = append(why, "provider-not-registered")
 		}
-		if msg.Provider == msg.Order.Owner {
+		pa, perr := sdk.AccAddressFromBech32(msg.Provider)
+		oa, oerr := sdk.AccAddressFromBech32(msg.Order.Owner)
+		if perr != nil || oerr != nil || pa.Equals(oa) {
 			why = append(why, "provider-is-tenant")
 		}
 		if !msg.Price.IsValid() || !msg.Price.IsPositive() {
@@ -273,7 +322,10 @@ func (chkC08) CheckTrans(t *TransCtx) (out []Viol) {
 			return nil
 		}
 		p := w.Cast.S(t.Act.Tag["provider"])
-		prov := t.Post.Providers[p]
+		prov, okp := t.Post.Providers[p]
+		if !okp {
+			prov = t.Post.Providers[strings.ToUpper(p)]
+		}
 		var keys []string
 		for k := range t.Post.Leases {
 			keys = append(keys, k)
